@@ -15,6 +15,33 @@ E1_TECH = ('bounded symbolic execution of the real yatiml/PyYAML code with '
            'bounds), counterexamples replayed on the unstubbed public API')
 
 CHECKS = {
+    'C11': dict(
+        text='Bounded model checking over operation histories: all histories '
+             'of 2 (thorough 3) operations out of 20 (create load/dump/JSON '
+             'functions over a class set or a same-named other set, call '
+             'long-lived functions on valid and invalid input, a JSON dump '
+             'that aborts half way); after every step a structural snapshot '
+             'of all class-level registries of PyYAML, yatiml, the long-lived '
+             'functions and the user classes is unchanged, and afterwards a '
+             'battery of 27 calls (incl. yaml.safe_load/safe_dump probes and '
+             'cross-class-set calls) equals the fresh-function baseline. '
+             'Thread schedules are NOT covered.',
+        design='4/C11',
+        note='Trusted base: CPython, CrossHair, z3; per path everything is '
+             'concrete (the solver chooses the history). Concurrent calls '
+             'from threads are outside the claim: the engine has no '
+             'interleaving model; the frame condition is the argument '
+             'offered for them, not a solver verdict.'),
+    'C17': dict(
+        text='Bounded model checking of the error-reporting path (real '
+             'message builders and difflib, one concrete line per node): a '
+             'valid document of 8 class models with one solver-chosen '
+             'corruption at any node (wrong scalar type, misspelt key, '
+             'dropped required key, added key, unknown enum member) must '
+             'raise RecognitionError citing only lines inside the document, '
+             'among them the line of the corrupted node, its key or an '
+             'enclosing mapping, and quoting the unknown/missing key.',
+        design='4/C17'),
     'C10': dict(
         text='Bounded model checking of the hook calling protocol: for all '
              '2^5 subsets of classes (chain A<-B<-C, sibling, unregistered '
